@@ -198,33 +198,20 @@ def r_axial(ctx, model):
         used_d = {s for s in d_i.free_symbols if s in lat}
         if i and not (lat[i] in used_n and lat[0] in used_d):
             bad.append(f"column {i}: numerator uses {sorted(map(str, used_n))}")
-    # explicit form of one column: fold the un-normalised expression by evaluating the loop body once
-    ok_form, found = diff_over_sum_form(ev, full, model)
-    ctx.check(not bad and ok_form, "column i = difference-over-sum of the fitted, edge-padded axis length i", w,
-              expected="(t[2:] - t[:-2])/(t[2:] + t[:-2]), t = pad(fit(lattice[:, i]))", found=found if not ok_form else ("; ".join(bad) or "as required"),
+    # explicit form: column i = r_i / (r_0 + r_1 + r_2), r_i = (t[2:] - t[:-2])/(t[2:] + t[:-2]), t = edge-padded fit of lattice column i
+    from ..sym import edge_padded
+    rs = []
+    for i in range(3):
+        fi = as_sym(ev.call(ev.get_attr(full, "fit_modulus"), [lat[i] / U.bohr], {}))
+        t = edge_padded(fi)
+        A, B = ev.subscript(t, sl(2, None)), ev.subscript(t, sl(None, -2))
+        rs.append((A - B) / (A + B))
+    wrong = [i for i in range(3) if not is_zero(a.get((i,)) - rs[i] / sum(rs))]
+    ctx.check(not bad and not wrong, "column i = difference-over-sum of the fitted, edge-padded axis length i", w,
+              expected="(t[2:] - t[:-2])/(t[2:] + t[:-2]), t = pad(fit(lattice[:, i])), normalised by the row sum",
+              found=(f"column {wrong[0]} = {short(a.get((wrong[0],)), 200)}" if wrong else ("; ".join(bad) or "as required")),
               explanation="axial strains are not the centred logarithmic derivative of the fitted axis lengths, or lattice column i "
                           "does not feed strain column i", key="axial.form")
-
-
-def diff_over_sum_form(ev, full, model):
-    """find `strains[:, i] = expr` in get_axial_strains and check expr = (A-B)/(A+B) with A, B the
-    shifted views (2:, :-2) of one padded fit of lattice column i"""
-    f = model.func(f"{FULL}.get_axial_strains")
-    # structural test on the source-level assignment evaluated in isolation
-    store = None
-    for st in ast.walk(f):
-        if isinstance(st, ast.Assign) and isinstance(st.targets[0], ast.Subscript) and src(st.targets[0].value) == "strains":
-            store = st
-    if store is None:
-        raise AnalysisError("get_axial_strains: store into strains[:, i] not found")
-    tmp = sp.Symbol("TMPV", positive=True)
-    names = {n.id for n in ast.walk(store.value) if isinstance(n, ast.Name)}
-    if len(names) != 1:
-        return False, f"right-hand side uses {sorted(names)}"
-    v = as_sym(ev.eval(store.value, {next(iter(names)): tmp}, model.mods["cij.core.full_modulus"]))
-    A = indexed(tmp, (sl(2, None),))
-    B = indexed(tmp, (sl(None, -2),))
-    return is_zero(v - (A - B) / (A + B)), short(v, 200)
 
 
 def sl(lo, hi):
